@@ -225,7 +225,7 @@ def spec_seq_ok(case, out):
             last = n
     return True
 
-def subsecond_runs(chk, drv, rng, n):
+def subsecond_runs(chk, drv, rng, n, drv_ml=None):
     """the clock has sub-second resolution, the cache file has whole seconds: two notices must still be 72 hours apart in real
     time (implementation against the statement; the model's clock is in whole seconds).  Hook H5 takes <seconds>.<ms>."""
     tmp = os.path.join(vlib.BUILD, "tmp", "c20sub-%d" % os.getpid())
@@ -249,6 +249,7 @@ def subsecond_runs(chk, drv, rng, n):
         shutil.rmtree(tmp, ignore_errors=True)
     res = out.splitlines()
     second = 0
+    stored_checked = 0
     for line, ts, r in zip(lines, times, res + ["CRASH"] * (len(lines) - len(res))):
         m = re.match(r"^((?:\d+ )+)\|", r)
         counts = [int(x) for x in m.group(1).split()] if m else None
@@ -265,10 +266,21 @@ def subsecond_runs(chk, drv, rng, n):
                     last = t
             if counts[0] != 1:
                 bad = bad or "no notice on the first run with an empty cache"
+            # the time of the last notice as the cache file keeps it: the model's stored_up (whole seconds, rounded up)
+            md = re.search(r"\| (\d+):\S*:(\d+) \|\|", r)
+            if not bad and md and drv_ml and last is not None:
+                ms = int(round(last * 1000))
+                tmpf = os.path.join(vlib.BUILD, "tmp", "c20st-%d.txt" % os.getpid())
+                open(tmpf, "w").write("stored %d\n" % ms)
+                rcm, outm = vlib.sh([drv_ml, tmpf], timeout=60)
+                os.remove(tmpf)
+                stored_checked += 1
+                if rcm != 0 or outm.strip() != md.group(2):
+                    bad = "the cache file keeps %s s for a notice at %d ms; the model's stored_up gives %s" % (md.group(2), ms, outm.strip())
         if bad:
             chk.report("c20-subsecond", {"case_line": line, "times": ts, "impl": r,
                                          "how": "drv_update cases.txt cachedir (seq: BLOCH_VERIF_NOW=<s>.<ms> per invocation; prints notices per invocation)"}, bad)
-    return {"histories": len(lines), "second_notices_seen": second}
+    return {"histories": len(lines), "second_notices_seen": second, "stored_times_compared_with_model": stored_checked}
 
 
 def run(chk):
@@ -360,7 +372,7 @@ def run(chk):
                                              "first": unexplained[:5], "count": len(unexplained)},
                       "model and implementation disagree on %d cases where the statement-level oracle finds no fault" % len(unexplained),
                       no_input=True)
-    sub = subsecond_runs(chk, drv, rng, 60 if quick else 1500)
+    sub = subsecond_runs(chk, drv, rng, 60 if quick else 1500, drv_ml)
     chk.cov.update({
         "traces_validated_against_impl": len(cases), "disagreements": disagreements, "subsecond_histories": sub,
         "case_kinds": kinds, "distinct_version_strings": len(vers), "version_pairs": len(pairs),
